@@ -78,7 +78,9 @@ func C17(run *ev.Run, tier string) map[string]interface{} {
 			func(m *model.Model) []drv.Op { return append(writes(m), failing...) },
 			func(m *model.Model) []drv.Op { return ObserveOps(m, u) }, cap)
 		// a menu request that the implementation accepts is compared but not explored further
-		systems[len(systems)-1].NoExpand = func(op drv.Op, got drv.Resp) bool { return strings.HasPrefix(op.Tag, "FAIL:") }
+		// (a request that fails in both clients is expanded: a trace it leaves in one of them only
+		// shows in later operations)
+		systems[len(systems)-1].NoExpand = func(op drv.Op, got drv.Resp) bool { return strings.HasPrefix(op.Tag, "FAIL:") && got.Err == "" }
 		ck := []val.Item{hKey("t"), hKey("b1")}
 		uc := Universe{Keys: map[string][]val.Item{"tab": ck}}
 		mk("conditional-writes", newImpl, []drv.Op{{K: drv.KCreate, Table: "tab", Cfg: &cfg.cfg}}, c05Alphabet(ck, c05Conds(thorough), false),
